@@ -31,10 +31,11 @@ def sort_by_time(x):
         # (an integer key: a float64 key cannot tell apart times 2**52 ns or more from the first)
         channel = np.zeros(len(x), dtype=np.int64)
 
-    max_time_difference = (np.iinfo(np.int64).max - 10) / (channel.max() + 1)
-    # Subtract 10 to have some extra margin, just in case.
-    # Use absolute to account for peaks which are channel -1.
-    _time_range_too_large = (x["time"].max() - x["time"].min()) > max_time_difference
+    # The single sort key is (time - min time) * (max channel + 1) + channel: it has to fit
+    # in an int64. Compute the limit in exact integer arithmetic (float64 rounds 2**63 / n).
+    max_channel = int(channel.max())
+    max_time_difference = (np.iinfo(np.int64).max - max_channel) // (max_channel + 1)
+    _time_range_too_large = (int(x["time"].max()) - int(x["time"].min())) > max_time_difference
     if not _time_range_too_large:
         # Faster sorting:
         x = _sort_by_time_and_channel(x, channel, channel.max() + 1)
